@@ -101,6 +101,9 @@ def run_program(prog):
                 json.dump(to_file_doc(d), f)
             FX.LOG.clear()
             FX.CURRENT[0] = None
+            import __main__ as _mainmod
+            FX.bind_hooks(_mainmod)
+            FX.STALE[0] = 0
             exc = None
             final = {"systems": [], "agents": [], "ran": []}
             try:
@@ -122,7 +125,7 @@ def run_program(prog):
             except Exception as e:  # noqa: BLE001
                 exc = e
             events.append({"op": "decode", "desc": d, "out": "ok" if exc is None else "Unexpected:" + type(exc).__name__,
-                           "log": [dict(x) for x in FX.LOG], "final": final})
+                           "log": [dict(x) for x in FX.LOG], "final": final, "stale": FX.STALE[0]})
     finally:
         shutil.rmtree(tmp, ignore_errors=True)
     return events
